@@ -27,9 +27,9 @@ def main():
     name = "demo_" + re.sub(r"[^a-z0-9]", "_", os.path.basename(d).lower())
     os.makedirs(WT + "/tests", exist_ok=True)
     shutil.copy(d + "/demo.rs", "%s/tests/%s.rs" % (WT, name))
-    rc, out = sh("cargo test --test %s --offline 2>&1 | grep -E '^test result|panicked|^error' | head -6" % name)
+    rc, out = sh("cargo test --test %s --offline 2>&1 | grep -E '^test result|panicked|^error' | tail -8" % name)
     res["demo_with_change"] = out.strip()[-600:]
-    res["demo_fails_with_change"] = "FAILED" in out or "failed" in out and "0 failed" not in out
+    res["demo_fails_with_change"] = "test result: FAILED" in out or "error: test failed" in out
     sh("git reset -q --hard HEAD")
     rc, out = sh("cargo test --test %s --offline 2>&1 | grep -E '^test result|panicked|^error' | head -6" % name)
     res["demo_clean"] = out.strip()[-300:]
